@@ -270,11 +270,28 @@ def writers(ctx, rule="C09.effects"):
                 ctx.ob(rule, f.site, True, role=role, line=st.lineno, detail=reason)
     # the attributes compile() mutates in place on the linked copy must be deep-copied by _linked_copy
     lc = ctx.tree.func("program.py", "Program._linked_copy")
-    shared = set()
+    shared, copied = None, None
     for n in walk_no_nested(lc.node):
         if isinstance(n, ast.Compare) and isinstance(n.ops[0], ast.NotIn) and isinstance(n.comparators[0], ast.Tuple):
             shared = {e.value for e in n.comparators[0].elts if isinstance(e, ast.Constant)}
-    ctx.require(shared, "_linked_copy no longer lists the attributes it shares with the original")
+        if isinstance(n, ast.Compare) and isinstance(n.ops[0], ast.In) and isinstance(n.comparators[0], ast.Tuple):
+            copied = {e.value for e in n.comparators[0].elts if isinstance(e, ast.Constant)}
+        if isinstance(n, ast.For) and isinstance(n.iter, ast.Tuple) and all(isinstance(e, ast.Constant) for e in n.iter.elts) \
+                and any(isinstance(x, ast.Call) and dotted(x.func) == "setattr" for x in ast.walk(n)):
+            copied = {e.value for e in n.iter.elts}
+    deep = any(isinstance(x, ast.Call) and dotted(x.func) in ("copy.deepcopy", "deepcopy") for x in walk_no_nested(lc.node))
+    must_copy = ("run_options", "backend_options", "locked", "unused_indices")
+    if shared is None and copied is not None:
+        # white-list form: everything not listed stays shared with the original
+        for a in must_copy:
+            ok = a in copied
+            ctx.ob(rule, lc.site, ok, "" if ok else f"_linked_copy copies only {sorted(copied)}: `{a}` stays shared with the "
+                   "source program, so compile() / lock() on the copy change the user's program",
+                   role=f"copies:{a}", line=lc.node.lineno)
+        shared = {"circuit", "reg_refs"} | {a for a in ("run_options", "backend_options", "tdm_params", "loop_vars") if a not in copied}
+    ctx.require(shared is not None, "_linked_copy: neither an exclusion nor an inclusion list of attributes found")
+    ctx.ob(rule, lc.site, deep, "" if deep else "_linked_copy no longer deep-copies the attributes it does not share "
+           "(dict / list valued options would be shared with the source)", role="deepcopy", line=lc.node.lineno)
     comp = ctx.tree.func("program.py", "Program.compile")
     for n in walk_no_nested(comp.node):
         if isinstance(n, ast.Call) and isinstance(n.func, ast.Attribute) and n.func.attr in MUTATORS and \
@@ -515,7 +532,19 @@ def cache_alias(ctx, rule="C09.cache-alias"):
     ctx.floor(rule, 8)
 
 
+def values(ctx):
+    from . import c08
+    c08.values(ctx)
+    for o in ctx.obls:
+        if o.rule == "C08.values":
+            o.rule = "C09.values"
+            o.key = o.key.replace("C08.values", "C09.values")
+    ctx.floors.pop("C08.values", None)
+    ctx.floor("C09.values", 2)
+
+
 def rules(ctx):
+    values(ctx)
     paired_restore(ctx)
     writers(ctx)
     run_order(ctx)
